@@ -208,6 +208,15 @@ func runCheck(repo, out, prop, tier string, timeout, seed int, verbose, keep boo
 		}
 		return nil
 	}
+	// a function whose contract could not be evaluated on this tree (clause does not resolve, unsupported
+	// construct, missing loop invariant ...) is undecided: failures inside it are not reported as violations
+	problemFuncs := map[string]bool{}
+	for _, r := range reports {
+		if len(r.Problems) > 0 {
+			problemFuncs[r.Name] = true
+		}
+	}
+	contractsBroken := len(P.Undecided) > 0
 	nViol := 0
 	discharged := 0
 	solverCount := map[string]int{}
@@ -244,6 +253,10 @@ func runCheck(repo, out, prop, tier string, timeout, seed int, verbose, keep boo
 				seenKnown[n] = true
 				knownLines = append(knownLines, fmt.Sprintf("KNOWN-FINDING: property=%s %s: %s", prop, n, k.What))
 			}
+			continue
+		}
+		if contractsBroken || problemFuncs[g.Func] {
+			undec = append(undec, fmt.Sprintf("%s: not discharged, but the contract of %s cannot be evaluated on this tree", n, g.Func))
 			continue
 		}
 		// violation
